@@ -27,9 +27,10 @@ Tokens(raw) == Split(Strip(Strip(SubSeq(raw, 5, Len(raw)), Ws), {0}), <<>>)
 Digit(c) == c >= 48 /\ c <= 57
 RECURSIVE Num(_, _)
 Num(s, acc) == IF s = <<>> THEN acc ELSE Num(Tail(s), acc * 10 + (s[1] - 48))
-IsInt(tok) == LET d == IF tok # <<>> /\ tok[1] = 45 THEN Tail(tok) ELSE tok IN
+\* decimal integers as the toolkit reads them: optional sign (+ or -), digits, leading zeros allowed
+IsInt(tok) == LET d == IF tok # <<>> /\ tok[1] \in {43, 45} THEN Tail(tok) ELSE tok IN
               d # <<>> /\ Len(d) <= 9 /\ {k \in 1..Len(d) : ~Digit(d[k])} = {}
-ToInt(tok) == IF tok[1] = 45 THEN 0 - Num(Tail(tok), 0) ELSE Num(tok, 0)
+ToInt(tok) == IF tok[1] = 45 THEN 0 - Num(Tail(tok), 0) ELSE IF tok[1] = 43 THEN Num(Tail(tok), 0) ELSE Num(tok, 0)
 AllInts(toks) == {k \in 1..Len(toks) : ~IsInt(toks[k])} = {}
 Ints(toks) == [k \in 1..Len(toks) |-> ToInt(toks[k])]
 
